@@ -52,6 +52,15 @@ def unesc_part(rep, tier, rng, bad):
 
 
 # ---------------------------------------------------------------- part 2: documents
+def eof_newline(doc, h2):
+    """the difference a missing final line ending makes: the importer ends the text with a line ending; the re-imported text then
+    renders exactly like the original with a line ending appended (it differs from the original where that line ending is
+    content: at the end of a code block, or after a final backslash)"""
+    if doc.endswith((b"\n", b"\r")): return False
+    r = tchk.convert([(doc + b"\n", "html", BASE | E["complete"], 0)])[0]
+    return r.ok() and r.out == h2
+
+
 def gen_title(rng):
     t = " ".join(rng.choice(WORDS + RESERVED[:12] + ["é", "日本", "a&b", "x<y"]) for _ in range(rng.randint(1, 4)))
     t = t.replace("\t", " ").strip()
@@ -113,6 +122,14 @@ def gen_doc(rng, nested=True):
         if rng.random() < 0.1: body = ""            # heading directly followed by the next one
         out += head + body
         titles.append(t); bodies.append(body)
+    if rng.random() < 0.15 and (levels or preamble):
+        # the text may end without a line ending: after the last paragraph, or right after a heading line / a Setext underline
+        cut = len(out) - len(out.rstrip("\r\n"))
+        out = out[:len(out) - cut]
+        if bodies:
+            bodies[-1] = bodies[-1][:max(0, len(bodies[-1]) - cut)] if bodies[-1] else ""
+        else:
+            preamble = preamble[:max(0, len(preamble) - cut)]
     return out.encode(), dict(levels=levels, preamble=preamble, titles=titles, bodies=bodies, meta=meta, nl=nl)
 
 
@@ -204,6 +221,9 @@ def docs_part(rep, tier, rng, bad):
             h1, h2 = html[2 * k], html[2 * k + 1]
             if h1.out != h2.out:
                 case["reimported"] = b.out.decode("utf-8", "replace")
+                if eof_newline(d, h2.out):
+                    bad.append(("eof-without-line-ending-gains-one", "a document without a final line ending comes back from the import with one; it renders like the original "
+                                "with a line ending appended, which differs where that line ending is content (end of a code block, final backslash)", case)); continue
                 bad.append(("render-differs", "HTML of the re-imported text differs from HTML of the original", case)); continue
             nrender += 1
     rep.cov["documents"] = len(docs)
@@ -266,4 +286,4 @@ def replay(rep, r):
     print("---- re-imported\n" + b.out.decode("utf-8", "replace"))
     h = tchk.convert([(d, "html", BASE | E["complete"], 0), (b.out, "html", BASE | E["complete"], 0)])
     if h[0].out != h[1].out:
-        rep.violation("render-differs", "HTML differs after the round trip", r)
+        rep.violation("eof-without-line-ending-gains-one" if eof_newline(d, h[1].out) else "render-differs", "HTML differs after the round trip", r)
